@@ -117,6 +117,8 @@ type Event struct {
 
 	// replay information (ignored by the specification)
 	R any `json:"r,omitempty"`
+
+	ret string // the returned string itself (not serialised): C12 result-stability clause
 }
 
 func newEvent(op, scn string) Event {
@@ -169,7 +171,12 @@ func (r *Recorder) closeShard() {
 }
 
 // Hold keeps the following events in the current shard until Release.
-func (r *Recorder) Hold()    { r.noSplit = true }
+func (r *Recorder) Hold() {
+	if r.f != nil && r.inShard >= r.perShard {
+		r.closeShard()
+	}
+	r.noSplit = true
+}
 func (r *Recorder) Release() { r.noSplit = false }
 
 // Dup reports whether a scenario key was already recorded (distinctness of cases).
